@@ -15,7 +15,8 @@ import scen
 
 PROP = "C08"
 STAGES = ["none", "bad_owner_signature", "expired", "missing_link", "unauthorised_link", "corrupt_link_signature",
-          "threshold_unmet", "disagreeing_links", "failing_step_rule", "sublayout_expired", "sublayout_missing_link",
+          "threshold_unmet", "disagreeing_links", "failing_step_rule", "failing_step_rule_match_from_inspection",
+          "failing_step_rule_match_from_undefined", "failing_last_step_rule", "sublayout_expired", "sublayout_missing_link",
           "sublayout_rule"]
 OUTCOMES = ["exit0", "exit1", "exit2", "exit127", "exit255", "killed", "not_found", "creates", "modifies", "deletes"]
 RULESETS = ["none", "satisfied", "violated_materials", "violated_products"]
@@ -56,8 +57,15 @@ def build_cell(W, rng, stage, outcome, rs, ninsp, level, keyset=FUNC, random_ext
         insp.append(scen.mk_inspection(f"insp{j}", run, mr, pr))
     # the inspected layout: steps build (threshold thr) and package
     build_rules_p = [["DISALLOW", "*"]] if stage == "failing_step_rule" else [["ALLOW", "*"]]
+    if stage == "failing_step_rule_match_from_inspection":
+        # the failing step also refers (legitimately: unknown names are only warned about) to an inspection's link
+        build_rules_p = [["MATCH", "nothing", "WITH", "PRODUCTS", "FROM", "insp0"], ["DISALLOW", "*"]]
+    elif stage == "failing_step_rule_match_from_undefined":
+        build_rules_p = [["MATCH", "*", "WITH", "MATERIALS", "FROM", "no-such-item"], ["REQUIRE", "never-there"]]
     steps = [scen.mk_step("build", thr, [W.kid(ka), W.kid(kb)], [], [["ALLOW", "*"]], build_rules_p),
              scen.mk_step("package", 1, [W.kid(kc)], [], [["MATCH", "*", "WITH", "PRODUCTS", "FROM", "build"], ["ALLOW", "*"]], [["ALLOW", "*"]])]
+    if stage == "failing_last_step_rule":
+        steps[1]["expected_products"] = [["MATCH", "*", "WITH", "PRODUCTS", "FROM", "insp0"], ["DISALLOW", "*"]]
     sub_stage = stage if stage.startswith("sublayout_") else None
     table = [ka, kb, kc, kd]
     expires = "2020-01-01T00:00:00Z" if stage == "expired" else None
@@ -237,7 +245,7 @@ def main(ctx):
                           "levels": ["top", "delegated"], "cells": ncells}
     return common.finish(
         PROP, ctx.tier, ctx.seed, res, t0=ctx.t0, level="fault_enumeration",
-        rule="complete grid failing stage (12) x inspection outcome (10) x inspection rule set (4) x 1-2 inspections x "
+        rule="complete grid failing stage (15) x inspection outcome (10) x inspection rule set (4) x 1-2 inspections x "
              "{top-level, delegated layout}; every cell is one real in_toto_verify call in a fresh working directory, "
              "observed through the inspection command's own sentinel/snapshot files; every cell is non-trivial and "
              "distinct; thorough repeats the grid with other key types",
